@@ -552,7 +552,6 @@ func (c *Ctx) mapLen(a *Val, rt types.Type, st *State) *Val {
 	return v
 }
 
-func (c *Ctx) mapDelete(args []*Val, st *State) { c.drop("map-delete") }
 
 // intrinsic: library functions with built-in meaning
 func (c *Ctx) intrinsic(id calleeID, cc *ssa.CallCommon, args []*Val, rt types.Type, st *State) (*Val, bool) {
